@@ -2,7 +2,8 @@
 SKIPS: verification / resolution loops do not gain new ways of skipping an
 element.  For a function whose job is to examine every element of a collection,
 each ``continue`` / ``break`` / ``return`` inside a loop is a decision not to
-examine (the rest of) an element.  The skip statements of today's tree were
+examine (the rest of) an element, and each further ``return`` statement an
+additional way of ending the examination early.  The skip statements of today's tree were
 read and are the reference (``baselines/skips.json``: per function the number of
 ``continue``, ``break`` and in-loop ``return`` statements, and the guards they sit
 under, for the report); a function that has MORE of a kind than its reference
@@ -23,7 +24,7 @@ BASELINE = pathlib.Path(__file__).resolve().parent.parent.parent / "baselines" /
 
 def skip_profile(f: FuncInfo) -> Dict[str, object]:
     parents = S.parents_of(f)
-    prof = {"continue": 0, "break": 0, "return_in_loop": 0, "guards": []}
+    prof = {"continue": 0, "break": 0, "return_in_loop": 0, "return": 0, "guards": []}
     for n in ast.walk(f.node):
         kind = None
         if isinstance(n, ast.Continue):
@@ -42,6 +43,17 @@ def skip_profile(f: FuncInfo) -> Dict[str, object]:
                     break
             if in_loop:
                 kind = "return_in_loop"
+        if isinstance(n, ast.Return):
+            # every return statement of the function itself (an added early return ends the examination for all that follows)
+            cur2 = n
+            own = True
+            while id(cur2) in parents:
+                cur2 = parents[id(cur2)]
+                if isinstance(cur2, (ast.FunctionDef, ast.AsyncFunctionDef, ast.Lambda)):
+                    own = cur2 is f.node
+                    break
+            if own:
+                prof["return"] += 1
         if kind is None:
             continue
         # nested function definitions are profiled on their own
@@ -70,8 +82,9 @@ def check_skips(ctx, f: FuncInfo, rule: str, baseline: Dict[str, Dict[str, objec
         ctx.skip(rule, f, f.node, "function not in the reference of skip statements")
         return
     prof = skip_profile(f)
-    worse = [k for k in ("continue", "break", "return_in_loop") if prof[k] > ref.get(k, 0)]
-    what = f"{f.qualname}: {prof['continue']} continue / {prof['break']} break / {prof['return_in_loop']} return-in-loop (reference {ref.get('continue', 0)}/{ref.get('break', 0)}/{ref.get('return_in_loop', 0)})"
+    worse = [k for k in ("continue", "break", "return_in_loop", "return") if prof[k] > ref.get(k, prof[k] if k == "return" else 0)]
+    what = (f"{f.qualname}: {prof['continue']} continue / {prof['break']} break / {prof['return_in_loop']} return-in-loop / {prof['return']} return "
+            f"(reference {ref.get('continue', 0)}/{ref.get('break', 0)}/{ref.get('return_in_loop', 0)}/{ref.get('return', '?')})")
     if not worse:
         ctx.ok(rule, f, f.node, what=what, nontrivial=(prof["continue"] + prof["break"] + prof["return_in_loop"]) > 0)
         return
